@@ -123,7 +123,7 @@ def line_wrap_by_sentence(
 
         # Handle width <= 0 as "no wrapping"
         if width <= 0:
-            return initial_indent + text.strip()
+            return initial_indent + " ".join(text.split())
 
         lines: list[str] = []
         first_line = True
